@@ -20,6 +20,7 @@ import (
 // Task is one goroutine of the system under test (or a harness client),
 // parked at an inserted yield point whenever it is not the one chosen to run.
 type Task struct {
+	pendingChild *Task // reserved in BeforeGo, claimed by the child's first yield
 	waitingSince int   // scheduler step at which the task last became schedulable
 	Path         []int // spawn path: the task's identity, independent of arrival order and goroutine ids
 	ID           string
@@ -80,6 +81,9 @@ type Sim struct {
 	// ClientsDone decides whether the scenario is complete; when nil it is
 	// "every client has returned".
 	Record bool // keep a decoded schedule
+	// TimeJitter lets the scheduler now and then pass simulated time while tasks are
+	// runnable (off where the clock itself is the subject, as in C07).
+	TimeJitter bool
 
 	mu        sync.Mutex
 	tasks     map[uint64]*Task
@@ -110,6 +114,7 @@ type Sim struct {
 	Strategy  string
 	Stale     int // reservations that were never claimed
 	idleSlept bool
+	current   *Task         // the task released most recently
 	arrivedCh chan struct{} // poked whenever a task parks (lets an idle scheduler stop waiting for timers)
 	consec    int
 }
@@ -192,13 +197,31 @@ func (s *Sim) hook(site string) {
 	s.mu.Lock()
 	t := s.tasks[g]
 	if t == nil {
-		if s.pending == nil {
-			s.machinery("yield from unknown goroutine at " + site)
+		// a goroutine the simulator has not seen yet: it claims the reservation its
+		// parent made in BeforeGo. The parent is the task that is running now; failing
+		// that (the go statement was executed by a task woken through a channel
+		// hand-off) the only task with an outstanding reservation.
+		var parent *Task
+		if s.current != nil && s.current.pendingChild != nil {
+			parent = s.current
+		} else {
+			for _, c := range s.all {
+				if c.pendingChild != nil {
+					if parent != nil {
+						parent = nil
+						break
+					}
+					parent = c
+				}
+			}
+		}
+		if parent == nil {
+			s.machinery("yield from a goroutine the simulator cannot attribute to a go statement, at " + site)
 			s.mu.Unlock()
 			runtime.Goexit()
 		}
-		t = s.pending
-		s.pending = nil
+		t = parent.pendingChild
+		parent.pendingChild = nil
 		t.goid = g
 		s.tasks[g] = t
 	}
@@ -206,7 +229,7 @@ func (s *Sim) hook(site string) {
 		s.mu.Unlock()
 		runtime.Goexit()
 	}
-	if t.held > 0 && s.pending == nil {
+	if t.held > 0 && t.pendingChild == nil {
 		// Inside a critical section the task runs on to its unlock: nobody else can
 		// enter anyway, and a task parked with a lock held would make a goroutine that
 		// is woken inside sync.Cond.Wait block on the real mutex, which the simulator
@@ -236,14 +259,17 @@ func (s *Sim) spawnHook(site string) {
 		s.machinery("go statement executed by a goroutine the simulator does not know, at " + site)
 		return
 	}
-	if s.pending != nil {
-		s.Stale++
+	if p.pendingChild != nil {
+		s.Stale++ // the previous go statement of this task started something that never yields
 	}
 	c := &Task{Path: append(append([]int{}, p.Path...), p.nchild), Seq: len(s.all), wake: make(chan struct{})}
 	c.ID = pathID(c.Path)
 	p.nchild++
 	s.all = append(s.all, c)
-	s.pending = c
+	// The reservation stays with the parent until the child's first yield claims it: the
+	// arguments of the go statement are evaluated first and may themselves yield
+	// (go f(open(path)) parks the parent inside open before the goroutine exists).
+	p.pendingChild = c
 }
 
 func (s *Sim) panicHook(site string, v interface{}) {
@@ -656,10 +682,6 @@ func (s *Sim) Run() {
 	for {
 		s.wait()
 		s.mu.Lock()
-		if s.pending != nil {
-			s.pending = nil
-			s.Stale++
-		}
 		// merge arrivals into the sorted parked list: the candidate order is a
 		// function of task identities only, never of arrival order
 		for _, a := range s.arrived {
@@ -765,6 +787,12 @@ func (s *Sim) Run() {
 		if len(cands) > 1 {
 			s.Multi++
 		}
+		if s.TimeJitter && s.T.Draw(97) == 96 {
+			// let simulated time pass although somebody could run: timers of the code
+			// under test may fire early relative to everything else
+			s.passTime(time.Duration(1+s.T.Draw(5000)) * time.Millisecond)
+			continue
+		}
 		pick := s.strat.pick(s, cands)
 		// bounded starvation: whatever the strategy, a candidate that has been schedulable
 		// for 1000 decisions without being chosen is chosen now (correct code may
@@ -818,6 +846,7 @@ func (s *Sim) Run() {
 				s.logEvent("clock+" + d.String())
 			}
 			t.runs++
+			s.current = t
 			s.logEvent(t.ID + "@" + t.site)
 			for _, a := range s.actors {
 				a.idle = false
@@ -866,6 +895,25 @@ func (s *Sim) Run() {
 			break
 		}
 	}
+}
+
+// passTime blocks the scheduler for at most d of fake time, or until a task
+// parks (a sleeper woke up and reached a yield).
+func (s *Sim) passTime(d time.Duration) {
+	select {
+	case <-s.arrivedCh:
+	default:
+	}
+	t0 := time.Now()
+	tm := time.NewTimer(d)
+	select {
+	case <-s.arrivedCh:
+		tm.Stop()
+	case <-tm.C:
+	}
+	el := time.Since(t0)
+	s.SimTime += el
+	s.logEvent("clock+jitter:" + el.String())
 }
 
 // Bubble runs f inside a fresh synctest bubble. It reports whether goroutines
